@@ -59,9 +59,44 @@ pub fn op_dup(args: &[Sexp]) -> String {
     let gds = lib.to_gds().map(|mut g| { zero_dates(&mut g); crate::gdsio::lib_s(&g).to_string() }).unwrap_or("err".into());
     format!("ok {} {} {}", of_bytes(lef.as_bytes()), of_bytes(pb.as_bytes()), of_bytes(gds.as_bytes()))
 }
+/// `c20.purphist <k>`: a layer whose purpose table has a HISTORY (a purpose registered under several numbers, a number
+/// re-assigned to another purpose, in orders chosen by k), with shapes of every registered purpose, converted to
+/// protobuf and GDSII. The table is rebuilt for every conversion, so its hash maps get fresh seeds every time.
+pub fn op_purphist(args: &[Sexp]) -> String {
+    let k = match args.get(0).and_then(|a| a.int()) { Some(k) => k as usize, None => return "bad-op".into() };
+    use raw::LayerPurpose as P;
+    let histories: Vec<Vec<(i16, P)>> = vec![
+        vec![(0, P::Drawing), (10, P::Drawing), (20, P::Drawing), (20, P::Pin)],
+        vec![(0, P::Drawing), (10, P::Drawing), (20, P::Drawing), (5, P::Label), (20, P::Pin), (10, P::Obstruction)],
+        vec![(1, P::Pin), (2, P::Pin), (3, P::Pin), (4, P::Pin), (4, P::Drawing), (3, P::Label)],
+        vec![(7, P::Drawing), (8, P::Drawing), (9, P::Drawing), (10, P::Drawing), (11, P::Drawing), (11, P::Obstruction), (10, P::Pin), (9, P::Label)],
+        vec![(0, P::Drawing), (0, P::Pin), (1, P::Drawing), (2, P::Drawing), (2, P::Pin)],
+        vec![(30, P::Other(30)), (31, P::Drawing), (30, P::Drawing), (32, P::Drawing), (32, P::Other(32))],
+    ];
+    let h = &histories[k % histories.len()];
+    let mut lib = raw::Library::new("hist", raw::Units::Nano);
+    let key = {
+        let mut layers = lib.layers.write().unwrap();
+        let mut l = raw::Layer::new(68, "met");
+        for (n, p) in h { if l.add_purpose(*n, p.clone()).is_err() { return "bad-op".into(); } }
+        layers.add(l)
+    };
+    let mut lay = raw::Layout::default();
+    lay.name = "c".into();
+    let mut purposes: Vec<P> = vec![];
+    for (_, p) in h { if !purposes.contains(p) { purposes.push(p.clone()); } }
+    for (i, p) in purposes.iter().enumerate() {
+        lay.elems.push(raw::Element { net: None, layer: key, purpose: p.clone(), inner: raw::Shape::Rect(raw::Rect { p0: raw::Point::new(i as isize, 0), p1: raw::Point::new(i as isize + 3, 4) }) });
+    }
+    lib.cells.push(layout21raw::utils::Ptr::new(raw::Cell::from(lay)));
+    let pb = lib.to_proto().map(|p| crate::props::c14::plib_s(&p).to_string()).unwrap_or("err".into());
+    let gds = lib.to_gds().map(|mut g| { zero_dates(&mut g); crate::gdsio::lib_s(&g).to_string() }).unwrap_or("err".into());
+    format!("ok {} {}", of_bytes(pb.as_bytes()), of_bytes(gds.as_bytes()))
+}
 pub fn oracle(line: &str) -> String {
     let first = crate::ops::run_line(line);
-    for k in 0..5 {
+    let reps = if line.starts_with("c20.purphist") || line.starts_with("c20.dup") { 40 } else { 5 };
+    for k in 0..reps {
         let again = crate::ops::run_line(line);
         if again != first {
             let i = first.bytes().zip(again.bytes()).position(|(a, b)| a != b).unwrap_or(0);
@@ -86,6 +121,7 @@ pub fn gen(thorough: bool, rng: &mut Rng, out: &mut Vec<String>) {
         out.push(c);
     }
     for k in 2..=6 { for ns in 1..=2 { out.push(format!("c20.dup {} {}", k, ns)); } }
+    for k in 0..6 { out.push(format!("c20.purphist {}", k)); }
     // raw libraries with multi-layer abstracts, exported three ways
     for _ in 0..n {
         let r = crate::props::c14::gen_rlib(rng, false);
